@@ -71,7 +71,7 @@ HEADER = (
 POSITIONS = [
     "led2 = Led({H})", "sleep({H})", "led.blink({H}, 1)", "led.blink(100, {H})", "led.set_brightness({H})", "if {H}:\n    led.on()",
     "if n > 1 and {H}:\n    led.on()", "k = 0\nwhile k < {H}:\n    k = k + 1", "for i in range({H}):\n    led.on()", "ys = [{H}]", "ys = [1, {H}, 3]",
-    "mon.write(f\"{{{H}}}\")", "mon.write({H})", "t = f\"a{{{H}}}b\"", "lcd.glyph(0, {H})", "lcd.glyph({H}, [0, 0, 0, 0, 0, 0, 0, 0])",
+    "mon.write(f\"{{H}}\")", "mon.write(f\"{{H}!r:>{n}}\")", "lcd.write(0, 0, f\"v={{H}}\")", "mon.write({H})", "t = f\"a{{H}}b\"", "lcd.glyph(0, {H})", "lcd.glyph({H}, [0, 0, 0, 0, 0, 0, 0, 0])",
     "lcd.glyph(0, [{H}, 0, 0, 0, 0, 0, 0, 0])", "led.flash_pattern({H})", "led.flash_pattern([1, {H}])", "led.flash_pattern([1, 0], {H})",
     "y = {H}", "y = n + {H}", "y, z = 1, {H}", "n += {H}", "xs.append({H})", "xs.remove({H})", "@{H}\ndef f():\n    return 1\ny = f()",
     "def f(a={H}):\n    return a\ny = f()", "def f(a):\n    return {H}\ny = f(1)", "us = Ultrasonic(trig=7, echo=8, sensor={H})", "us = Ultrasonic({H}, 8)",
@@ -86,6 +86,35 @@ POSITIONS = [
     "sv = Servo(9, max_angle={H})", "bz.play_tone({H}, 10)", "led.fade_in({H})", "led.fade_out(10, {H})", "lcd.animate('scroll', 0, 'hi', speed_ms={H})",
     "us = Ultrasonic(7, {H})", "def len(a={H}):\n    return a\ny = len(2)", "def str(a):\n    return {H}\ny = str(1)", "def len(a):\n    return a\ny = len({H})", "for i in range(1, {H}):\n    led.on()", "for i in range(0, 10, {H}):\n    led.on()", "bz.beep({H})", "bz.sweep(100, {H}, 50)",
 ]
+
+
+# further places an expression can stand in Python (most are outside the supported subset: the script is rejected or the line is
+# reported - never evaluated); used with the hostile payloads only
+POSITIONS_EXTRA = [
+    "y: {H} = 1", "def f(a: {H}):\n    return a\ny = f(1)", "def f(a) -> {H}:\n    return a\ny = f(1)", "class A:\n    x = {H}", "class A({H}):\n    pass", "with {H} as fh:\n    led.on()",
+    "assert {H}", "assert n > 0, {H}", "raise {H}", "del xs[{H}]", "xs[{H}] = 1", "xs[0] += {H}", "for i in {H}:\n    led.on()", "while {H}:\n    led.on()", "if n > 5:\n    led.on()\nelif {H}:\n    led.off()",
+    "try:\n    led.on()\nexcept {H}:\n    led.off()", "print({H})", "led2 = Led(pin={H})", "led2 = Led(*{H})", "led2 = Led(**{H})", "sleep(ms={H})", "lcd.write({H}, 0, \"a\")", "mon2 = SerialMonitor(baud={H})",
+    "match {H}:\n    case 1:\n        led.on()", "match n:\n    case 1 if {H}:\n        led.on()", "y = lambda a={H}: a", "global_y = [i for i in range(3) if {H}]", "y = n if {H} else 2", "return {H}", "led.on() if {H} else led.off()",
+    "y = (1, {H})[0]", "y = not {H}", "y = -{H}", "s2 = s + {H}", "s2 = \"%s\" % {H}", "s2 = \"{{}}\".format({H})", "led.{H}", "x.y = {H}", "def f(a, *b, c={H}, **d):\n    return a\ny = f(1)", "async def f():\n    await {H}",
+    "def f():\n    yield {H}\ny = f()", "nonlocal_y = [{H} for _ in range(2)]", "import os\nos.environ[\"A\"] = str({H})", "target(\"COM3\", upload={H})", "target(port={H})", "if __name__ == \"__main__\":\n    y = {H}",
+]
+# import statements (never executed: `import antigravity` would open a browser, `import this` prints) in every statement position
+IMPORT_LINES = ["import this", "import antigravity", "import wave, sqlite3", "from this import s as zen", "import os as sleep", "from subprocess import run", "from os import system as sleep", "import socket; socket.socket()",
+                "from Reduino.Actuators import *", "from Reduino import *", "import Reduino.toolchain.pio as pio\npio.ensure_pio()", "from Reduino.toolchain.pio import ensure_pio\nensure_pio()", "from . import this", "from __future__ import annotations",
+                "import importlib\nimportlib.import_module(\"this\")", "__import__(\"this\")", "import ctypes", "import this as Led\nled9 = Led(9)"]
+IMPORT_FRAMES = ["{I}\n", "led.on()\n{I}\nled.off()\n", "def f():\n    {I}\n    return 1\ny = f()\n", "if n > 1:\n    {I}\n", "try:\n    {I}\nexcept ImportError:\n    led.on()\n", "while True:\n    {I}\n    sleep(100)\n"]
+
+
+def import_scripts():
+    out = []
+    for imp in IMPORT_LINES:
+        for fr in IMPORT_FRAMES:
+            ind = fr[:fr.index("{I}")].rsplit("\n", 1)[-1]
+            body = fr.replace("{I}", imp.replace("\n", "\n" + ind))
+            out.append(HEADER + body)
+            if fr == IMPORT_FRAMES[0]:
+                out.append(imp + "\n" + HEADER + "led.on()\n")
+    return out
 
 
 def hostile_exprs(canary: str):
@@ -164,6 +193,8 @@ def check_script_result(ctx, stats, kind, text, r, canary):
         ctx.fail(f"transpiler raised {r['exc']} (neither ValueError nor SyntaxError)", case, "firmware source, ValueError or SyntaxError", r, key="exc-kind:" + str(r["exc"]))
     if r["audit"]:
         ctx.fail("transpiling performed a file / process / import / exec access (audit event)", case, "no audit event", r["audit"], key="audit:" + r["audit"][0][0])
+    if r.get("env"):
+        ctx.fail("transpiling read the process environment", case, "no environment access (REDUINO_VERIF, the verification hook's own switch, excepted)", r["env"], key="env-read:" + r["env"][0])
     if canary and os.path.exists(canary):
         os.remove(canary)
         ctx.fail("a planted expression was executed during transpiling (canary file created)", case, "canary absent", "canary created", key="canary")
@@ -448,8 +479,11 @@ def run(ctx: C.Ctx):
         pairs = [(p, h) for p in pos for h in rng.sample(hx, 6)] + [(p, hx[0]) for p in pos] + [(pos[1], h) for h in hx] + [(pos[20], h) for h in hx]
     else:
         pairs = [(p, h) for p in pos for h in hx]
+    pairs += [(p, h) for p in POSITIONS_EXTRA for h in (hx if thorough else [hx[0]] + rng.sample(hx, 5))]
     for p, h in pairs:
         scripts.append(("hostile", HEADER + p.replace("{H}", h) + "\n"))
+    for t in import_scripts():
+        scripts.append(("import-statement", t))
     # every source of a non-ValueError exception of the evaluator, in every position
     ERR_SOURCES = ["1 / 0", "1 // 0", "1 % 0", "0 ** -1", "-'a'", "1 < 'a'", "max(1, 'a')", "min('a', 1)", "1 << -1", "1.5 | 1", "int('x')",
                    "float('x')", "len(5)", "abs('a')", "'a' + 1", "2.0 ** 5000", "int(1e400)", "(1, 2) < (1, 'a')", "f'{1 / 0}'",
@@ -571,6 +605,8 @@ def run(ctx: C.Ctx):
     hs = [t for k, t in scripts if k == "hostile"]
     hs = [ref_script] + [hs[i] for i in sorted(random.Random(f"C11:target:{ctx.seed}").sample(range(len(hs)), min(len(hs), 400 if thorough else 70)))]
     hs += [HEADER + p.replace("{H}", e) + "\n" for p in POSITIONS if "Servo(" in p or "LCD(" in p for e in ("9", "n + 6", hx[0], hx[1], "1e999", "1 / 0")]
+    others = [t for k, t in scripts if k in ("noise", "python-source", "import-statement", "deep", "infinity") and len(t) < 60000]
+    hs += random.Random(f"C11:target2:{ctx.seed}").sample(others, min(len(others), 200 if thorough else 40))
     n_extra += O.target_stream(ctx, stats, rng, thorough, hs)
     if os.path.exists(canary):
         os.remove(canary)
